@@ -34,6 +34,14 @@ def run(c, chk):
         chk.rule('R4.9', 'every value token written for a declared option reaches the store (the parser table equals the reference automaton, rule R1.1 of C01)')
         c01.grammar(c, c08.chk_proxy(chk, {'R1.1': 'R4.9'}), pm.ParserModel(c))
     bulk_converts_all(c, chk)
+    if not isinstance(chk, report.SubCheck):
+        # R4.11: "the whole token": what reaches the conversion is the token as the language defines it (no blanks trimmed off a
+        # quoted token, no bytes dropped by the scanner)
+        from . import c03
+        chk.rule('R4.11', 'the token text handed to the conversion is the decoded token of the language (the rules of C03): nothing is trimmed or dropped on the way')
+        sub = report.SubCheck(chk, 'R4.11', 'C03')
+        c03.run(c, sub)
+        sub.done('token decoding')
     chk.assumptions = ['strtol\'s own grammar (leading blanks, "+") and inf/nan for floats are not decided']
     fn = c.need('cfg_setopt')
     ex = sym.Explorer(c.modules, max_visits=2, mod_sets=c.mod_sets, max_paths=100000)
